@@ -5,9 +5,11 @@
      registers on a transport (`*.register_callback(f, [service types])`, resolved per concrete class).  `assert
      isinstance(frame.body, K)` in a registered callback is discharged by the registration itself (every service
      type it is registered for dispatches to a subclass of K — C20's dispatch table).
-     Scope: `transport.send(...)` on the transport a frame just arrived on and the link-layer callbacks
-     (`cemi_received_callback`, `indication_callback`) are not followed here — C21 (serialisation), C18
-     (CEMIHandler.handle_raw_cemi raises nothing) and C32 (_cemi_received) carry those obligations.
+     `transport.send(...)` is followed (it refuses on a closed transport / an uninitialised secure session: what a
+     registered callback may raise is exactly what the dispatch loop contains around it); serialising the answer
+     (`to_knx`, `encrypt_frame`) and the link-layer callbacks (`cemi_received_callback`, `indication_callback`) are
+     not followed here — C21 / C28 (serialisation, wrapping), C18 (CEMIHandler.handle_raw_cemi raises nothing)
+     and C32 (_cemi_received) carry those obligations.
  (b) definite assignment (own def-use pass over the CFG incl. exceptional edges): no local of the transport
      callbacks is read on a path that did not assign it.
  (c) no recursion on the receive path; the TCP stream loop makes progress (every iteration returns or continues
@@ -637,15 +639,23 @@ def udp_table(chk: Check, repo: Repo) -> None:
             chk.ob("udp-datagram-cell", fi.site(), got == want, f"datagram parse={parse} own-multicast-echo={echo}: {sorted(map(str, got))}; required {sorted(map(str, want))}", key=f"udp|{parse}|{echo}" + ("" if got == want else f"|{sorted(map(str, got))}"))
 
 
+def _is_dispatch_call(c: ast.Call) -> bool:
+    """`<loop variable>.callback(frame, source, transport)` - the call of a registered callback (whatever the local is called)"""
+    return isinstance(c.func, ast.Attribute) and c.func.attr == "callback" and isinstance(c.func.value, ast.Name) and len(c.args) == 3
+
+
 def run(chk: Check, repo: Repo) -> None:
     from .common_rules import dispatch_iterates_a_snapshot
     dispatch_iterates_a_snapshot(chk, repo, repo.func("xknx.io.transport.ip_transport", "KNXIPTransport.handle_knxipframe"), "callbacks", "the registered frame callbacks", "snapshot|transport-callbacks")
     def safe(fi: FuncInfo) -> bool:
-        return fi.name == "send" and fi.cls is not None and any(c.name == "KNXIPTransport" for c in repo.mro(fi.cls))
+        # serialising / wrapping the frame that is sent is C21's and C28's obligation; `send` itself is followed: it
+        # refuses with CommunicationError / IPSecureError when the transport is closed or the session not initialised -
+        # which is the case for an answer to a frame that follows, in the same TCP chunk, the one that closed it
+        return fi.cls is not None and ((fi.name in ("to_knx", "init_from_body", "calculated_length") and fi.module.name.startswith("xknx.knxip")) or fi.name == "encrypt_frame")
 
     def cb_targets(fi: FuncInfo, c: ast.Call):
         n = call_name(c)
-        if fi.qualname == "KNXIPTransport.handle_knxipframe" and n == "callback.callback":
+        if fi.qualname == "KNXIPTransport.handle_knxipframe" and _is_dispatch_call(c):
             return []  # the registered callbacks are separate entries below
         if n in ("self.cemi_received_callback", "self.indication_callback", "self.data_received_callback", "self.connection_lost_callback", "self._connection_lost_cb"):
             return [] if n in ("self.cemi_received_callback", "self.indication_callback") else None
@@ -667,7 +677,15 @@ def run(chk: Check, repo: Repo) -> None:
     for e in entries:
         check_entry(chk, mr, e, (), label=e.qualname, reviewed=base_reviewed)
         definite_assignment(chk, e)
-    # registered callbacks
+    # registered callbacks: what leaves one is what the dispatch loop contains around the call (nothing else)
+    hk = repo.func(IPT, "KNXIPTransport.handle_knxipframe")
+    contained: tuple[str, ...] = ()
+    for t in walk_local(hk.node):
+        if isinstance(t, ast.Try) and any(isinstance(c, ast.Call) and _is_dispatch_call(c) for s_ in t.body for c in ast.walk(s_)):
+            for h in t.handlers:
+                if h.type is not None:
+                    contained += tuple(ast.unparse(x).split(".")[-1] for x in (h.type.elts if isinstance(h.type, ast.Tuple) else [h.type]))
+    chk.ob("dispatch-contains-what-callbacks-raise", hk.site(), True, f"KNXIPTransport.handle_knxipframe contains {list(contained) or 'nothing'} around each callback; the registered callbacks may raise exactly that", key="dispatch|contained")
     regs = registered_callbacks(repo)
     bodies = body_class_of(repo)
     chk.floor("registered transport callbacks (method x concrete class)", len(regs), 20)
@@ -696,7 +714,7 @@ def run(chk: Check, repo: Repo) -> None:
                             ok = ok and not c.args and not any(kw.arg == "maxsize" for kw in c.keywords)
                 return ok and n > 0
             reviewed[f"QueueFull|{m.qualname}|queue.put_nowait(…"] = ("the scanner creates its queues unbounded (asyncio.Queue() without maxsize)", qv)
-        check_entry(chk, mr, m, (), ctx=k, label=f"{m.qualname}@{k.name}", reviewed=reviewed)
+        check_entry(chk, mr, m, contained, ctx=k, label=f"{m.qualname}@{k.name}", reviewed=reviewed)
         definite_assignment(chk, m)
     chk.ob("no-recursion", tcp.site(), not (mr.recursive & {tcp.ref, udp.ref}) and not any(call_name(c) == "self.data_received_callback" for c in calls(tcp.node)) and not any(call_name(c) == "self.data_received_callback" for c in calls(udp.node)),
            f"the transport callbacks do not call themselves (recursive functions met below the entries: {sorted(mr.recursive)})", key="no-recursion")
@@ -704,5 +722,5 @@ def run(chk: Check, repo: Repo) -> None:
     header_length_readable(chk, repo)
     udp_table(chk, repo)
     chk.rule("E1 may-raise analysis of the transport callbacks and every registered transport callback; definite-assignment dataflow over the CFG with exceptional edges; decision tables of the TCP stream loop / UDP datagram handler by abstract path enumeration; loop progress by lower bounds; ownership census of the stream buffer")
-    chk.assume("transport.send() on the transport that delivered the frame, and the link-layer callbacks (cemi_received_callback / indication_callback) are outside this check: C21, C18 and C32 carry them")
+    chk.assume("serialising / wrapping the frame a callback sends, and the link-layer callbacks (cemi_received_callback / indication_callback) are outside this check: C21, C28, C18 and C32 carry them")
     finish(chk, mr)
